@@ -272,7 +272,13 @@ func (s *Sim) Violate(oracle, sig, format string, args ...any) {
 	if !s.draining {
 		// what a dead process "observes" while it unwinds is not an observation
 		s.Violations = append(s.Violations, Violation{Oracle: oracle, Sig: sig, Msg: msg})
-		s.eventLocked("VIOLATION " + sig + ": " + msg)
+		// shown in the trace but not hashed: the trace hash identifies the execution
+		// (schedule, faults, observations), so that a divergence caused by something the
+		// simulator cannot seed (Go map iteration order) is reported as a violation and
+		// not mistaken for a nondeterministic harness
+		if s.KeepTrace {
+			s.TraceLines = append(s.TraceLines, "VIOLATION "+sig+": "+msg)
+		}
 	}
 	s.mu.Unlock()
 }
